@@ -101,7 +101,10 @@ public:
 
     ~watcher() noexcept {
       // Step 1: lock our own pointer (canary_).
-      auto* c = canary_.load(std::memory_order_relaxed);
+      // acquire: if the canary's destructor has already cleared canary_ we
+      // return at once and our storage may be freed, so the canary thread's
+      // writes to this object must happen-before that
+      auto* c = canary_.load(std::memory_order_acquire);
       if (!c) {
         return;
       }
@@ -167,7 +170,10 @@ public:
 
   ~canary() noexcept {
     // Step 1: lock our own pointer (watcher_).
-    auto* w = watcher_.load(std::memory_order_relaxed);
+    // acquire: if the watcher's destructor has already cleared watcher_ we
+    // return at once and our storage may be freed, so the watcher thread's
+    // writes to this object must happen-before that
+    auto* w = watcher_.load(std::memory_order_acquire);
     if (!w) {
       return;
     }
